@@ -8,6 +8,7 @@ Two levels of abstraction, each checked against the one below:
     (Seq / Call terms), so that what a printer asks the builders for can be read off.
 """
 import ast
+import re
 
 from engine import docterm as D
 from engine import facts
@@ -408,3 +409,79 @@ def eval_contextual(repo, it, closure_fnv):
 def bound(rep, quick, thorough):
     """scenario bound for the current tier"""
     return thorough if getattr(rep, 'tier', 'quick') == 'thorough' else quick
+
+
+# ---------------------------------------------------------------------------- scaled sequences
+ALWAYS_COUNT = 9
+ELEMENT_KINDS = ('int', 'float', 'Sub_int', None)
+
+
+def scaled_counts(repo, fn, most=300):
+    """element counts one past every size constant that ``fn`` and the module functions it calls compare against (engine.thresholds),
+    plus a fixed small count: a branch of a container printer that is only taken for "more than N elements" is run with more than N.
+    Returns (counts, mined)."""
+    from engine import thresholds
+    from engine.astutil import call_name as _cn
+    todo, seen = [fn], {}
+    while todo:
+        f = todo.pop()
+        if f.key in seen:
+            continue
+        seen[f.key] = f
+        for c in ast.walk(f.node):
+            if isinstance(c, ast.Call):
+                g = f.module.funcs.get(_cn(c).split('.')[-1])
+                if g is not None and g.key not in seen and g.name.startswith('_'):
+                    todo.append(g)
+    mined, _ = thresholds.mine([fn.module], fns=[f.node for f in seen.values()], most=most)
+    return sorted({ALWAYS_COUNT} | {t + 1 for t in mined}), mined
+
+
+def typed_elements(n, kind, prefix='x'):
+    """n element values of one kind: None = nothing known; 'int' / 'float' = exactly that built-in type; 'Sub_int' = an int subclass"""
+    if kind is None:
+        return [Sym('%s%d' % (prefix, i)) for i in range(n)]
+    tv = TypeV(kind, base=kind[4:]) if kind.startswith('Sub_') else TypeV(kind)
+    return [ValueV('%s%d' % (prefix, i), tv, None) for i in range(n)]
+
+
+_ELEM_RE = re.compile(r'\b([a-z]\d+)\b')
+
+
+def element_view(items):
+    """[(element name or None, 'dispatch' | 'literal' | 'other', item)], one entry per element document of a sequence term: an element
+    handed to the recursive print entry, a text computed from it directly (repr(x3), str(x3), ...), or something else (a placeholder)"""
+    out = []
+    for i in items:
+        if isinstance(i, D.Sub):
+            out.append((i.prov, 'dispatch', i))
+            continue
+        j = D.strip_ann(i)
+        m = _ELEM_RE.search(j.prov or '') if isinstance(j, D.Lit) else None
+        out.append((m.group(1), 'literal', i) if m else (None, 'other', i))
+    return out
+
+
+def in_order(view, nel, pr):
+    """every element once and in iteration order: the i-th element document is about the i-th element (where that can be told), and
+    there are as many documents as elements (not counted on a path that assumes the value is longer than max_seq_len: that is C10)"""
+    if any(nm is not None and nm != 'x%d' % i for i, (nm, how, it_) in enumerate(view)):
+        return False
+    return len(view) == nel or pr.assumed('max_seq_len <', True)
+
+
+def exactly_int(name, kind, pr):
+    """the element is known to be exactly an int: by the scenario, or by the path condition (``type(el) is int`` was tested)"""
+    return kind == 'int' or any(pol and text in ('int == type(%s)' % name, 'type(%s) == int' % name) for text, pol in pr.facts)
+
+
+def implies_depth_at_least(pr, k):
+    """the path condition of pr bounds ctx.depth_left from below by k"""
+    for text, pol in pr.facts:
+        m = re.match(r'^(-?\d+) (<|<=) ctx\.depth_left(?:-0)?$', text)
+        if m and pol and int(m.group(1)) + (1 if m.group(2) == '<' else 0) >= k:
+            return True
+        m = re.match(r'^ctx\.depth_left(?:-0)? (<|<=) (-?\d+)$', text)
+        if m and not pol and int(m.group(2)) + (0 if m.group(1) == '<' else 1) >= k:
+            return True
+    return False
